@@ -36,6 +36,7 @@ func init() {
 			{ID: "C14-R11", Title: "a module reads its attributes from the live globals of its code", Floor: 1, Run: moduleGlobalsAliasLive},
 			{ID: "C14-R12", Title: "the module table is rebuilt for new code: an import is resolved by this evaluation's importer (shared with C11-R5)", Floor: 2, Run: c11r5},
 			{ID: "C14-R13", Title: "the import root is fixed (absolute) when the importer is built", Floor: 1, Run: importRootFixedAtConstruction},
+			{ID: "C14-R14", Title: "imports bind the module's own objects", Floor: 2, Run: importsBindTheModulesOwnObjects},
 		},
 	})
 }
